@@ -138,6 +138,11 @@ func checkWindowCase(c WindowCase) (sig, what string, discard bool, ws windowSta
 			clauses = append(clauses, cl{fmt.Sprintf("skip %d take %d", h, k), n, n})
 		}
 	}
+	// zero-padded amounts are decimal numbers (`take 010` takes ten)
+	for _, k := range []int{8, 9, 10, 12} {
+		clauses = append(clauses, cl{fmt.Sprintf("take 0%d", k), 0, k}, cl{fmt.Sprintf("top 00%d", k), 0, k}, cl{fmt.Sprintf("skip 0%d", k), k, n},
+			cl{fmt.Sprintf("last 0%d", k), max(n-k, 0), n}, cl{fmt.Sprintf("skip 00%d take 0%d", k-8, k), k - 8, 2*k - 8})
+	}
 	for _, q := range clauses {
 		got, sig, what, discard := runClause(c, q.text)
 		if discard {
@@ -170,7 +175,7 @@ func init() {
 }
 
 var repetitiveBodies = []string{"'aa'", "'a' 'a'", "at least 1 'a'", "at most 2 'a' 'b'", "in 'a', 'b'", "'ab' or 'a'", "maybe 'a' 'b'", "letter", "at least 2 any fewest", "at most 3 digit", "maybe 'x' maybe 'y'", "'a' = v v"}
-var repetitiveTexts = []string{"aaaa", "aaaaa", "ababab", "aabbaabb", "a1 a2 a3", "xyxxy", "abab\nabab", "12 345 6", "aaa\naa"}
+var repetitiveTexts = []string{"aaaa", "aaaaa", "ababab", "aabbaabb", "a1 a2 a3", "xyxxy", "abab\nabab", "12 345 6", "aaa\naa", "aaaaaaaaaaaaa", "ab ab ab ab ab\nab ab ab ab ab ab", "a1 a2 a3 a4 a5 a6 a7 a8 a9 a0 b1 b2"}
 
 func TestC04(t *testing.T) {
 	seedNote(t)
